@@ -33,6 +33,21 @@ Proof.
 Qed.
 Print Assumptions C13_only_backend.
 
+(* non-interference form of the same: nothing of the supplied URL but the presence of credentials (which refuses the
+   dial) enters the choice of the peer, and nothing but path and query enters the request target sent to it *)
+Theorem C13_noninterference : forall backend u u',
+  (u_has_user u = u_has_user u' -> dial_of (target_now backend u) = dial_of (target_now backend u')) /\
+  (u_path u = u_path u' -> u_force_query u = u_force_query u' -> u_raw_query u = u_raw_query u' ->
+   request_uri (target_now backend u) = request_uri (target_now backend u')).
+Proof.
+  intros backend u u'. destruct (C13_only_backend backend u) as (_ & R & _). destruct (C13_only_backend backend u') as (_ & R' & _).
+  split.
+  - intros Hu. destruct C13_overwritten_fields as (Hs & Hh & Ho).
+    unfold target_now, target, dial_of. cbn [u_has_user u_opaque u_host u_scheme]. rewrite ?Hs, ?Hh, ?Ho, ?Hu. reflexivity.
+  - intros Hp Hf Hq. rewrite R, R'. unfold request_uri. rewrite Hp, Hf, Hq. reflexivity.
+Qed.
+Print Assumptions C13_noninterference.
+
 (* paths outside the shim prefix reach the wrapped handler untouched - when they are clean *)
 Theorem C13_mount_clean_paths : forall prefix_ path, prefix prefix_ path = false -> (path ++ "/")%string <> prefix_ ->
   mux_route prefix_ path true = ToWrapped.
